@@ -70,12 +70,14 @@ macro_rules! cycle_check {
       let real = probe.get_size() as i64;
       let mut steps: Vec<i64> = (-2 * real..=2 * real).collect();
       steps.extend_from_slice(&[1_000_003, -1_000_003, 60 * real + 1, -(60 * real) - 1]);
+      // step counts (and constructor indices) that do not fit in 32 bits
+      steps.extend_from_slice(&[2_147_483_647, 2_147_483_648, -2_147_483_648, -2_147_483_649, 3_000_000_000, -3_000_000_000, 4_294_967_296 + 7, -4_294_967_296 - 7, 1_000_000_000_039, -1_000_000_000_039, (1i64 << 52) + 12_345, -(1i64 << 52) - 12_345]);
       for i in 0..real {
         let x = <$ty>::from_index(i as isize);
         if x.get_index() as i64 != i {
           out.push((format!("C11/cycle-index/{}_{:03}", $name, i), format!("{}", x.get_index()), format!("{}", i)));
         }
-        for k in [-3i64, -1, 1, 2, 1000] {
+        for k in [-3i64, -1, 1, 2, 1000, 3_000_000_011, -3_000_000_011] {
           let y = <$ty>::from_index((i + k * real) as isize);
           if y.get_index() as i64 != i || y.get_name() != x.get_name() {
             out.push((format!("C11/cycle-wrap/{}_{:03}_{:+}", $name, i, k), format!("{}", y.get_index()), format!("{}", i)));
@@ -93,6 +95,11 @@ macro_rules! cycle_check {
         let b = (i * 5 + 1) % (3 * real) - real;
         if x.next(a as isize).next(b as isize).get_index() != x.next((a + b) as isize).get_index() || x.next(a as isize).next(-a as isize).get_index() as i64 != i || x.next(0).get_index() as i64 != i {
           out.push((format!("C11/cycle-laws/{}_{:03}", $name, i), "composition / inverse / identity broken".into(), "group action".into()));
+        }
+        // two steps that each fit in 32 bits and whose sum does not
+        let (ba, bb) = (1_500_000_000i64 + i, 1_500_000_007i64);
+        if x.next(ba as isize).next(bb as isize).get_index() as i64 != (i + ba + bb).rem_euclid(real) || x.next(-ba as isize).next(-bb as isize).get_index() as i64 != (i - ba - bb).rem_euclid(real) {
+          out.push((format!("C11/cycle-laws-wide/{}_{:03}", $name, i), format!("next({}).next({}) -> {}", ba, bb, x.next(ba as isize).next(bb as isize).get_index()), format!("{}", (i + ba + bb).rem_euclid(real))));
         }
         // the same laws as the type's own equality sees them, and equality tells neighbours apart
         let eq_ok = x.next(0) == x && x.next(a as isize).next(-a as isize) == x && x.next(a as isize).next(b as isize) == x.next((a + b) as isize) && <$ty>::from_index(i as isize) == x && !(x.next(0) != x);
